@@ -42,7 +42,7 @@ CLAIMED = {
          "Decides the structural conditions the CRC verdicts rest on for every path: every byte taken from the reader is fed to the running checksum, every integrity verdict is a zero-residue test on a fed hash (or a documented exemption edge), the three header layouts agree, the encoder hashes what it writes. Together with C14 and the CRC burst theorem this gives the detection clause on paper; the input-output statement itself is not observed.",
          "Trusted: io.ReadFull/binary.Read/io.CopyN/io.Reader contracts as summarised; CRC burst-error theorem. Not decided: the quantified corruption statement as an input-output fact; corruptions that alter which bytes are parsed are argued on paper only.",
          "DESIGN.md 4 C04"),
- "C10": ("other", "who-reads census, exact/capped read shape rules (min-phi recognition, edge-derived constant sets), counter pairing, single-store rule for the limit, loop-exit dominance, fresh-decoder-in-loop rule (SSA)",
+ "C10": ("other", "who-reads census, exact/capped read shape rules (min-phi recognition, edge-derived constant sets), counter pairing, readFull exact-fill, single-store rule for the limit, loop-exit dominance, per-file decoder state (fresh allocation or complete re-initialisation, field by field) (SSA + call graph)",
          "Decides the framing discipline on every path and for every chunking: reads are exact or capped by the remaining data size, the consumed-byte counter is advanced exactly with the read position, success requires n >= limit then a 2-byte CRC read, chained files get a fresh decoder. Chunking cannot matter because no rule depends on how many bytes a Read returns.",
          "Trusted: io.ReadFull/binary.Read/io.CopyN/io.Reader contracts. Not decided: equality of chained results with stand-alone decoding (paper consequence with C08); n <= limit is implied by cap + counting but not computed.",
          "DESIGN.md 4 C10"),
@@ -58,11 +58,11 @@ CLAIMED = {
          "Decides the state discipline the time rules rest on: only the UTC field 253 and the compressed branch re-base the reference, each re-base updates the 5-bit offset with it, the update has the rollover form, invalid values are skipped, and the epoch/zone conversions have the documented shapes. Sequence arithmetic over long runs is a consequence of the recognised formula and is not computed.",
          "Trusted: time package semantics; recognised normal form of the compressed update (an equivalent rewrite is reported as undecided, not accepted silently). Not decided: computed values over sequences.",
          "DESIGN.md 4 C12"),
- "C18": ("other", "sibling-arm rule over the 17 routers, bit-slice lint over all expandComponents bodies (syntax + types), accumulator construction/scope rules (SSA)",
+ "C18": ("other", "sibling-arm rule over the 17 routers, bit-slice lint over all expandComponents bodies incl. guard exactness, dependency order and non-slice assignments (syntax + types), accumulator recognised on SSA path terms, construction/scope rules (SSA)",
          "Decides that expansion is invoked wherever a named component-bearing message is stored, that every recognised bit slice is well-formed, guarded by the source's invalid value and contiguous, and the accumulator discipline. Known findings (generator-rooted): package-level never-reset accumulators, two zero-mask accumulators, one narrow shift. The component layout against the SDK and the sums over streams are not decided.",
          "Trusted: Go shift/conversion semantics; C15-4 constructor values. Not decided: layout against the 21.115 profile (workbook absent), computed sums.",
          "DESIGN.md 4 C18"),
- "C17": ("other", "constant folding, shape checks of the value-type methods, and guard-interval extraction: exact SSA evaluation of the semicircle constructors at one representative of every interval between their comparison constants",
+ "C17": ("other", "constant folding, comparison of the value-type methods' symbolic path terms (SSA normal form) with the expected path sets, and guard-interval extraction: exact SSA evaluation of the semicircle constructors at one representative of every interval between their comparison constants",
          "Decides the sentinel, bounds, factors, guard structure and conversion shapes; the accepted set of NewLatitude/NewLongitude is exact for all 2^32 inputs because the argument is only compared with constants (finite set of orderings). Known finding: +90 degrees exactly is rejected. The numeric clauses (round trip within one semicircle, printed form within 2e-5, bijection of seconds) need enumeration of 2^32 values and are not decided.",
          "Trusted: evaluator transfer functions; IEEE-754 semantics of the named operations; strconv.FormatFloat. Not decided: numeric accuracy clauses.",
          "DESIGN.md 4 C17"),
@@ -70,19 +70,19 @@ CLAIMED = {
          "Decides the structural well-formedness conditions: promised post-state stored, data size taken after the last record, header bytes in the decoder's classes, definition layout, declared size = emitted size for every table class, each data record preceded by its own written definition. These hold for every File because they are properties of the encoder's code and the constant table. Wire values and conformance under an independent parser are not observed.",
          "Trusted: encoding/binary.Write size semantics; C15 and C13 results. Not decided: value equality on the wire; custom binary.ByteOrder implementations.",
          "DESIGN.md 4 C05"),
- "C07": ("other", "census of every error origin and potential panic site in the functions reachable from Encode (SSA + call graph), each classified by its guarding condition and discharged by constant-table facts about the hosted message types",
+ "C07": ("other", "census of every error origin and potential panic site in the functions reachable from Encode (SSA + call graph), each classified by its guarding condition and discharged by constant-table facts about the hosted message types; reflect precondition table; expansion order/guard clauses (idempotence); every-visited-message-is-written dominance rules and profile-row identity in the definition builder",
          "Decides shape-level encodability: every way Encode can fail or panic is enumerated; each is a write that cannot fail, the caller's writer, impossible for a File whose init succeeded, or excluded by the tables for every hosted message type. The one origin that cannot be discharged (UTF-8 check vs. arbitrary decoded bytes) is a known finding. Content equality after re-encoding and the fixpoint clause are not decided.",
          "Trusted: bytes.Buffer/hash writes never fail; C15 and C03 results; reflect panic conditions. Not decided: equality of re-decoded content, second round trip, nil container elements.",
          "DESIGN.md 4 C07"),
- "C02": ("other", "exact folding of the definition validator over (profile class x base-type byte x size) joined with the consumer arms read from syntax (arm/table agreement, sign-extension obligation), byte-order discipline, field-target, skip-by-size, developer-section, scratch-escape and widening shape rules",
+ "C02": ("other", "exact folding of the definition validator over (profile class x base-type byte x size) joined with the consumer arms read from syntax (arm/table agreement, sign-extension obligation), byte-order discipline, field-target, skip-by-size (incl. both sections on every success path), developer-section, scratch-escape, widening, string-arm (SSA) and readFull exact-fill rules",
          "The statement is value-level and is not decided as a whole. Decided are eight structural necessary conditions; each one, when broken, makes some decoded value differ from its wire value (wrong byte order, wrong width or setter, missing sign extension, write to the wrong struct field, unread bytes, skipped developer section, aliasing the scratch buffer, destroyed narrow big-endian fields).",
          "Trusted: evaluator transfer functions; reflect setter semantics; builtin copy. Not decided: equality of every decoded value with its wire value; narrow-coordinate sign padding; string termination; developer-field content.",
          "DESIGN.md 4 C02"),
- "C01": ("other", "exact folding of validateFieldDef over the complete (profile class x base byte x size) product joined with the consumer arms; panic-site census discharged by an interval analysis with guard refinement, range-loop semantics, table obligations and a frozen audited list; loop census; call-graph closure",
+ "C01": ("other", "exact folding of validateFieldDef over the complete (profile class x base byte x size) product joined with the consumer arms; panic-site census discharged by an interval analysis with guard refinement, linear loop invariants proved inductive by candidate elimination over the paths of the loop body, length-guard and map-initialisation dominance rules, range-loop semantics, table obligations and a short frozen audited list; loop census with ranking arguments; call-graph closure",
          "The exhaustive single-field-definition clause is decided exactly (1.9 M validator points, every accepted point held against its consuming arm). For the rest, every potential panic site and every loop in the functions reachable from the five entry points is enumerated and must carry a discharge; an undischarged site or unclassified loop is reported with its call path. Hanging readers that violate the io.Reader contract, stdlib-internal panics and memory exhaustion are outside.",
-         "Trusted: evaluator/interval transfer functions; documented reflect and encoding/binary panic conditions; <= 12 audited sites, each with its reason in checker/c01.go; nil-dereference freedom is covered only by the targeted guard rules (definition slot, profile row, logger, constructor table), not by a general nilness analysis.",
+         "Trusted: evaluator/interval transfer functions; documented reflect and encoding/binary panic conditions; 7 audited sites (buffer cursor invariant, copy count, invariant panics, dead default arms), each with its reason in checker/c01.go; nil-dereference freedom is covered only by the targeted guard rules (definition slot, profile row, logger, constructor table), not by a general nilness analysis.",
          "DESIGN.md 4 C01"),
- "C19": ("other", "determinism lint (map-order rule with singleton facts, ambient-input and timestamp-flag rules) and emitter-agreement shape rules over the generator packages (syntax + types + SSA dominance)",
+ "C19": ("other", "determinism lint (map-order rule with singleton facts, ambient-input and timestamp-flag rules) emitter-agreement shape rules, selection-column read-only rule and nil-checked map lookups over the generator packages (syntax + types + SSA dominance)",
          "Decides two structural necessary conditions of the generator: no iteration-order or ambient dependence in what is emitted (one frozen, reasoned exception), and the three per-field emitters walk the same slice one item per element with the table's struct index equal to the position, the version printed being the pair passed in, disabled rows skipped before the slice is built. Exit status, compilation and byte identity of real runs over workbook subsets need the command to run and are not decided.",
          "Trusted: map iteration is the only nondeterminism source in sequential code without ambient inputs. Not decided: everything that requires running fitgen (see DESIGN.md 5).",
          "DESIGN.md 4 C19"),
